@@ -154,8 +154,7 @@ def _drained_when_owned(f, la, drain_pos, app_pos):
     return bool(result)
 
 
-def submit(ctx):
-    rid = "C06.submit"
+def submit(ctx, rid="C06.submit"):
     ctx.rule(rid, "submit: exclusive try lock; owned branch drains before applying; other branch enqueues before "
              "raising the flag and never touches the object", floor=30)
     fb, eng = ctx.fb, ctx.eng
